@@ -10,6 +10,40 @@ Z3_TIMEOUT_MS = int(os.environ.get("PYVC_TIMEOUT_MS", 120_000 if os.environ.get(
 CVC5 = "/usr/bin/cvc5"
 
 
+def _nested_instances(body, cands, guard=None, depth=0):
+    """Instances of universally quantified sub-formulas in positive positions (under And / the consequent of Implies) of `body`
+    at the candidate terms: consequences of `body`, handed to the solver as extra hints."""
+    out = []
+    if depth > 3:
+        return out
+    if z3.is_and(body):
+        for ch in body.children():
+            out.extend(_nested_instances(ch, cands, guard, depth))
+    elif z3.is_implies(body):
+        g = body.arg(0) if guard is None else z3.And(guard, body.arg(0))
+        out.extend(_nested_instances(body.arg(1), cands, g, depth))
+    elif z3.is_quantifier(body) and body.is_forall() and body.num_vars() == 1 and body.var_sort(0) == z3.IntSort():
+        for c in cands:
+            inst = z3.substitute_vars(body.body(), c)
+            out.append(inst if guard is None else z3.Implies(guard, inst))
+            out.extend(_nested_instances(inst, cands, guard, depth + 1))
+    return out
+
+
+def _check(assertions, timeout_ms):
+    """Solve in a fresh z3 context, from the SMT-LIB text of the assertions: the verdict then does not depend on the internal term
+    numbering left behind by VC generation (which varies from run to run with Python's memory management)."""
+    s0 = z3.Solver()
+    s0.add(*assertions)
+    ctx = z3.Context()
+    s = z3.Solver(ctx=ctx)
+    s.set("rlimit", Z3_RLIMIT)
+    s.set("timeout", timeout_ms)
+    s.set("random_seed", 0)
+    s.from_string(s0.to_smt2())
+    return s.check(), s
+
+
 def solve(ob, use_cvc5=True):
     """Sets ob.verdict in {'proved','refuted','unknown'} (for expect='sat': 'reachable'/'vacuous'/'unknown')."""
     s = z3.Solver()
@@ -22,11 +56,21 @@ def solve(ob, use_cvc5=True):
         goal = ob.goal
         # a universally quantified goal is proved for fresh constants (skolemisation done here, not left to the solver)
         skolems = []
-        while z3.is_quantifier(goal) and goal.is_forall():
-            vs = [z3.FreshConst(goal.var_sort(i), "sk") for i in range(goal.num_vars())]
-            skolems.extend(vs)
-            goal = z3.substitute_vars(goal.body(), *reversed(vs))
-        s.add(z3.Not(goal))
+        while True:
+            if z3.is_quantifier(goal) and goal.is_forall():
+                vs = [z3.FreshConst(goal.var_sort(i), "sk") for i in range(goal.num_vars())]
+                skolems.extend(vs)
+                goal = z3.substitute_vars(goal.body(), *reversed(vs))
+            elif z3.is_implies(goal) and z3.is_quantifier(goal.arg(1)) and goal.arg(1).is_forall():
+                # forall i. A(i) -> forall j. B(i, j): assume A at the skolem constant and continue with the inner goal
+                s.add(goal.arg(0))
+                goal = goal.arg(1)
+            else:
+                break
+        # a conjunctive goal is discharged conjunct by conjunct (smaller, more stable queries)
+        conjuncts = list(goal.children()) if z3.is_and(goal) and goal.num_args() > 1 else None
+        if conjuncts is None:
+            s.add(z3.Not(goal))
         # an existential goal: its negation is universal; instantiate it at the integer constants of the path (witness candidates)
         if z3.is_quantifier(goal) and goal.is_exists() and goal.num_vars() == 1 and goal.var_sort(0) == z3.IntSort():
             cands = {}
@@ -49,6 +93,8 @@ def solve(ob, use_cvc5=True):
                     if z3.is_quantifier(h) and h.is_forall() and h.num_vars() == 1 and h.var_sort(0) == z3.IntSort():
                         s.add(z3.substitute_vars(h.body(), c))
         # help e-matching: instantiate the single-variable universal hypotheses at the goal's skolem constants
+        int_sks = [sk for sk in skolems if z3.is_int(sk)]
+        cands2 = [t for sk in int_sks[:3] for t in (sk, sk - 1, sk + 1)]
         for c in ob.conds:
             if z3.is_quantifier(c) and c.is_forall() and c.num_vars() == 1:
                 for sk in skolems:
@@ -57,8 +103,25 @@ def solve(ob, use_cvc5=True):
                         if z3.is_int(sk):          # neighbours too: invariants relate index k with k-1 / k+1
                             s.add(z3.substitute_vars(c.body(), sk - 1))
                             s.add(z3.substitute_vars(c.body(), sk + 1))
+                            if len(int_sks) > 1:    # nested index structure: inner quantifiers at the goal's indices as well
+                                for h in _nested_instances(z3.substitute_vars(c.body(), sk), int_sks[:3]):
+                                    s.add(h)
+            elif z3.is_quantifier(c) and c.is_forall() and c.num_vars() == 2 and cands2 \
+                    and c.var_sort(0) == z3.IntSort() and c.var_sort(1) == z3.IntSort():
+                # two-index lemmas (monotone allocation counters, pairwise distinct keys) at all pairs of the goal's indices
+                for a in cands2:
+                    for b in cands2:
+                        s.add(z3.substitute_vars(c.body(), a, b))
     t0 = time.time()
-    r = s.check()
+    if ob.expect == "unsat" and conjuncts is not None:
+        r = z3.unsat
+        base = list(s.assertions())
+        for cj in conjuncts:
+            r, s = _check(base + [z3.Not(cj)], Z3_TIMEOUT_MS)
+            if r != z3.unsat:
+                break
+    else:
+        r, s = _check(list(s.assertions()), Z3_TIMEOUT_MS if ob.expect == "unsat" else 2_000)
     ob.seconds = time.time() - t0
     ob.backend = "z3-" + z3.get_version_string()
     if ob.expect == "sat":
